@@ -33,6 +33,23 @@ const (
 	ClassFree  = 2 // environment decision, never budgeted
 )
 
+// Cand describes one enabled thread at a scheduling point (partial-order reduction).
+type Cand struct {
+	Thread int   // thread id
+	Objs   []int // ids of the modelled objects its pending operation touches (0 = the harness object)
+	Reads  bool  // the operation only reads them
+}
+
+// ThreadChooser is implemented by choosers that pick the next thread themselves from the
+// footprints of the pending operations (sleep-set exploration).  Returning -1 prunes the execution.
+type ThreadChooser interface {
+	ChooseThread(cands []Cand) int
+}
+
+// StatusPruned marks an execution cut off by the sleep-set reduction (it is a prefix of an
+// equivalent execution explored elsewhere).
+const StatusPruned = "pruned"
+
 // Chooser decides every nondeterministic choice.  n >= 2 always.
 type Chooser interface {
 	Choose(class int, n int, what string) int
@@ -239,6 +256,8 @@ type op struct {
 	exec    func()
 	sleeper bool
 	recvOn  []*object // channels a blocked receive is waiting on (lets a select-send find its partner)
+	touch   []*object // footprint: modelled objects the operation reads or writes (partial-order reduction)
+	reads   bool      // the footprint is only read
 }
 
 type object struct {
@@ -487,7 +506,25 @@ func (s *Sched) dispatch(self *thread) {
 			s.maxEn = len(en)
 		}
 		idx := 0
-		if len(en) > 1 {
+		if tc, ok := s.chooser.(ThreadChooser); ok {
+			cands := make([]Cand, len(en))
+			for i, t := range en {
+				c := Cand{Thread: t.id, Reads: t.pending.reads}
+				for _, o := range t.pending.touch {
+					c.Objs = append(c.Objs, o.id)
+				}
+				cands[i] = c
+			}
+			idx = tc.ChooseThread(cands)
+			if idx < 0 {
+				s.abortFrom(self, StatusPruned, "sleep-set blocked")
+				return
+			}
+			if idx >= len(en) {
+				s.abortFrom(self, StatusDiverged, fmt.Sprintf("thread choice %d out of range %d", idx, len(en)))
+				return
+			}
+		} else if len(en) > 1 {
 			class := ClassSched
 			if en[0].rank >= EnvRank {
 				class = ClassFree // only environment threads are enabled: which one acts is a free choice
@@ -593,6 +630,10 @@ func (s *Sched) spawn(name string, rank int, f func()) {
 	go s.threadMain(t, f)
 }
 
+// harnessObj stands for all state the harness shares between threads: every harness operation
+// (Yield, Block, HarnessPoint) touches it, so the reduction never reorders two of them.
+var harnessObj = &object{id: 0, kind: "harness"}
+
 // Yield is a plain scheduling point.
 func Yield() {
 	s := active
@@ -600,7 +641,18 @@ func Yield() {
 		return
 	}
 	s.cur.mutated = true
-	s.point(&op{desc: "yield"})
+	s.point(&op{desc: "yield", touch: []*object{harnessObj}})
+}
+
+// HarnessPoint is a scheduling point that announces an access to shared harness state; the code
+// following it (up to the thread's next operation) executes atomically with it.
+func HarnessPoint(desc string) {
+	s := active
+	if s == nil {
+		return
+	}
+	s.cur.mutated = true
+	s.point(&op{desc: desc, touch: []*object{harnessObj}})
 }
 
 // Block parks the current thread until cond() holds (evaluated only by the baton holder).
@@ -610,7 +662,7 @@ func Block(desc string, cond func() bool) {
 		panic("verifrt.Block outside controlled mode")
 	}
 	s.cur.mutated = true
-	s.point(&op{desc: desc, enabled: cond})
+	s.point(&op{desc: desc, enabled: cond, touch: []*object{harnessObj}})
 }
 
 // Choose is a free (unbudgeted) environment choice in [0,n).
@@ -763,7 +815,8 @@ func Send[T any](ch chan<- T, v T) {
 	var of *offer
 	wasClosed := false
 	s.point(&op{
-		desc: fmt.Sprintf("send c%d", o.id),
+		desc:  fmt.Sprintf("send c%d", o.id),
+		touch: []*object{o},
 		enabled: func() bool {
 			return o.closed || o.cap == 0 || len(o.buf) < o.cap
 		},
@@ -797,6 +850,7 @@ func Send[T any](ch chan<- T, v T) {
 	// ... and complete once a receiver took it.
 	s.point(&op{
 		desc:    fmt.Sprintf("send-complete c%d", o.id),
+		touch:   []*object{o},
 		enabled: func() bool { return of.taken },
 		exec:    func() { t.vc.join(of.rvc) },
 	})
@@ -825,6 +879,7 @@ func Recv2[T any](ch <-chan T) (T, bool) {
 		enabled: o.recvReady,
 		exec:    func() { rv, rok = s.doRecv(t, o) },
 		recvOn:  []*object{o},
+		touch:   []*object{o},
 	})
 	if !rok || rv == nil {
 		if rok {
@@ -845,7 +900,8 @@ func Close[T any](ch chan<- T) {
 	o := s.chanObj(ch)
 	t := s.cur
 	s.point(&op{
-		desc: fmt.Sprintf("close c%d", o.id),
+		desc:  fmt.Sprintf("close c%d", o.id),
+		touch: []*object{o},
 		exec: func() {
 			t.mutated = true
 			if o.external {
@@ -956,6 +1012,7 @@ func Select(hasDefault bool, cases ...Case) *Sel {
 	s.point(&op{
 		desc:   fmt.Sprintf("select/%d default=%v", len(cases), hasDefault),
 		recvOn: recvOn,
+		touch:  objs,
 		enabled: func() bool {
 			if hasDefault {
 				return true
@@ -1061,6 +1118,13 @@ func Sleep(d time.Duration) {
 		return
 	}
 	t := s.cur
+	// sleep-begin / sleep-end events let oracles reason about whole polling iterations
+	s.events = append(s.events, Event{Step: s.steps, Thread: t.id, Name: "sleep-begin"})
+	defer func() {
+		if active == s && !s.aborted {
+			s.events = append(s.events, Event{Step: s.steps, Thread: t.id, Name: "sleep-end"})
+		}
+	}()
 	if t.mutated || len(t.obs) == 0 {
 		t.mutated = false
 		t.obs = t.obs[:0]
@@ -1070,9 +1134,15 @@ func Sleep(d time.Duration) {
 	}
 	watch := append([]obsRec(nil), t.obs...)
 	t.obs = t.obs[:0]
+	var wobjs []*object
+	for _, w := range watch {
+		wobjs = append(wobjs, w.obj)
+	}
 	s.point(&op{
 		desc:    "sleep(park)",
 		sleeper: true,
+		touch:   wobjs,
+		reads:   true,
 		enabled: func() bool {
 			if t.force {
 				return true
@@ -1121,6 +1191,7 @@ func MutexLock(key uintptr) {
 	t := s.cur
 	s.point(&op{
 		desc:    fmt.Sprintf("lock m%d", o.id),
+		touch:   []*object{o},
 		enabled: func() bool { return !o.locked && o.readers == 0 },
 		exec: func() {
 			o.locked = true
@@ -1138,7 +1209,8 @@ func MutexTryLock(key uintptr) bool {
 	t := s.cur
 	got := false
 	s.point(&op{
-		desc: fmt.Sprintf("trylock m%d", o.id),
+		desc:  fmt.Sprintf("trylock m%d", o.id),
+		touch: []*object{o},
 		exec: func() {
 			if !o.locked && o.readers == 0 {
 				o.locked = true
@@ -1160,7 +1232,8 @@ func MutexUnlock(key uintptr) {
 	o := s.objFor(key, "mutex")
 	t := s.cur
 	s.point(&op{
-		desc: fmt.Sprintf("unlock m%d", o.id),
+		desc:  fmt.Sprintf("unlock m%d", o.id),
+		touch: []*object{o},
 		exec: func() {
 			if !o.locked {
 				panic("sync: unlock of unlocked mutex")
@@ -1180,6 +1253,7 @@ func MutexRLock(key uintptr) {
 	t := s.cur
 	s.point(&op{
 		desc:    fmt.Sprintf("rlock m%d", o.id),
+		touch:   []*object{o},
 		enabled: func() bool { return !o.locked },
 		exec: func() {
 			o.readers++
@@ -1196,7 +1270,8 @@ func MutexRUnlock(key uintptr) {
 	o := s.objFor(key, "mutex")
 	t := s.cur
 	s.point(&op{
-		desc: fmt.Sprintf("runlock m%d", o.id),
+		desc:  fmt.Sprintf("runlock m%d", o.id),
+		touch: []*object{o},
 		exec: func() {
 			if o.readers <= 0 {
 				panic("sync: RUnlock of unlocked RWMutex")
@@ -1215,7 +1290,8 @@ func WGAdd(key uintptr, n int) {
 	o := s.objFor(key, "wg")
 	t := s.cur
 	s.point(&op{
-		desc: fmt.Sprintf("wg.add w%d %d", o.id, n),
+		desc:  fmt.Sprintf("wg.add w%d %d", o.id, n),
+		touch: []*object{o},
 		exec: func() {
 			o.count += n
 			if o.count < 0 {
@@ -1235,6 +1311,7 @@ func WGWait(key uintptr) {
 	t := s.cur
 	s.point(&op{
 		desc:    fmt.Sprintf("wg.wait w%d", o.id),
+		touch:   []*object{o},
 		enabled: func() bool { return o.count == 0 },
 		exec: func() {
 			t.mutated = true
